@@ -155,7 +155,7 @@ func (f *gofile) mk(t *Type, tok string, constant bool, depth int) string {
 					continue
 				}
 				ft := resolveAlias(r.S, fl.T)
-				if ft.K == "tparam" || ft.K == "named" && ft.Decl == t.Decl {
+				if ft.K == "tparam" || ft.K == "named" && ft.Decl == t.Decl || fl.Name == "_" {
 					continue
 				}
 				if d.Pkg != f.pkg && !exported(fl.Name) {
